@@ -2,6 +2,7 @@
    `exact <lemma>` and followed by Print Assumptions (audited by ./check on every run). *)
 From V.lib Require Import Base.
 From V.c14 Require Import C14Spec C14Model C14WordProofs C14ScanProofs C14ConvProofs C14WalkProofs C14StreamProofs.
+From V.c14 Require Import C14HevcSpec C14HevcModel C14HevcProofs.
 
 (* the word bit-trick of hasZeroByte is exactly "some byte of the word is zero", for every 8-byte
    word, whichever byte order the load uses *)
@@ -158,4 +159,83 @@ Example C14_helpers_stream_ex :
   avc_get_parameter_sets_from_byte_stream (stream us) = Ok ([], [[103;170]], [[104;187]])%N /\
   extract_nalus_from_byte_stream (stream us) = Ok [[103;170]; [104;187]]%N /\
   avc_extract_nalus_of_type 0 true (stream [(true, [160])]%N) = Ok [].
+Proof. vm_compute. repeat split; reflexivity. Qed.
+
+(* ------------------------------------------------------------------ HEVC helpers, own transcription *)
+(* C14HevcModel.v transcribes every HEVC helper from the text of hevc/hevc.go and hevc/annexb.go (it is the
+   model the correspondence check runs against the hevc package).  On EVERY input -- well-formed or not --
+   it computes what the shared loop transcriptions of C14Model.v compute when instantiated with the HEVC
+   type function, so the two independent hand transcriptions of the hevc code agree. *)
+Theorem C14_hevc_transcriptions_agree : forall s : list N,
+  hevc_FindNaluTypes s = hevc_find_nalu_types s /\
+  hevc_FindNaluTypesUpToFirstVideoNalu s = hevc_find_nalu_types_up_to_video s /\
+  (forall want, hevc_ContainsNaluType s want = hevc_contains_nalu_type s want) /\
+  hevc_IsRAPSample s = hevc_is_rap_sample s /\
+  hevc_IsIDRSample s = hevc_is_idr_sample s /\
+  hevc_HasParameterSets s = hevc_has_parameter_sets s /\
+  hevc_GetParameterSets s = hevc_get_parameter_sets s /\
+  hevc_GetParameterSetsFromByteStream s = hevc_get_parameter_sets_from_byte_stream s /\
+  (forall want stop, hevc_ExtractNalusOfTypeFromByteStream want s stop = hevc_extract_nalus_of_type want stop s).
+Proof. exact hevc_transcriptions_agree. Qed.
+Print Assumptions C14_hevc_transcriptions_agree.
+
+(* nal_unit_type, bits 14..9 of the two-byte HEVC NAL unit header, is what hevc.GetNaluType computes from the
+   first header byte alone *)
+Theorem C14_hevc_header_type : forall n : list N,
+  hevc_hdr_ok n = true -> hevc_unit_type n = hevc_GetNaluType (hd0 n).
+Proof. exact hevc_unit_type_first_byte. Qed.
+Print Assumptions C14_hevc_header_type.
+
+(* every HEVC helper that walks a SAMPLE (and the codec-agnostic unit lister), on the sample built from ANY
+   list of units that carry a two-byte header and fit the length field: the obvious functions of the unit
+   list, the type of a unit being the nal_unit_type field of its header *)
+Theorem C14_helpers_hevc_units_sample : forall ns : list (list N), hevc_units ns = true ->
+  let ut := hevc_unit_type in
+  (ns <> [] -> get_nalus_from_sample (sample ns) = Ok ns) /\
+  hevc_FindNaluTypes (sample ns) = Ok (u_types ut ns) /\
+  hevc_FindNaluTypesUpToFirstVideoNalu (sample ns) = Ok (u_types_upto ut hevc_vcl ns) /\
+  (forall want, hevc_ContainsNaluType (sample ns) want = Ok (u_has ut (fun t => N.eqb t want) ns)) /\
+  hevc_IsRAPSample (sample ns) = Ok (u_has ut hevc_irap ns) /\
+  hevc_IsIDRSample (sample ns) = Ok (u_has ut hevc_idr ns) /\
+  hevc_HasParameterSets (sample ns) =
+    Ok (existsb (fun t => N.eqb t 32) (u_types_upto ut hevc_vcl ns)
+        && existsb (fun t => N.eqb t 33) (u_types_upto ut hevc_vcl ns)
+        && existsb (fun t => N.eqb t 34) (u_types_upto ut hevc_vcl ns)) /\
+  hevc_GetParameterSets (sample ns) =
+    Ok (u_of_type ut 32 (u_before_video ut hevc_vcl ns),
+        u_of_type ut 33 (u_before_video ut hevc_vcl ns),
+        u_of_type ut 34 (u_before_video ut hevc_vcl ns)).
+Proof. exact helpers_hevc_own_sample. Qed.
+Print Assumptions C14_helpers_hevc_units_sample.
+
+(* every HEVC helper that walks an Annex B BYTE STREAM (and the codec-agnostic unit lister), on the stream
+   built from ANY list of well-formed units with a two-byte header behind any mix of 3- and 4-byte start codes *)
+Theorem C14_helpers_hevc_units_stream : forall us : list (bool * list N), hevc_stream_units us = true ->
+  let ut := hevc_unit_type in
+  let ns := map snd us in
+  extract_nalus_from_byte_stream (stream us) = Ok ns /\
+  hevc_GetParameterSetsFromByteStream (stream us) =
+    Ok (u_of_type ut 32 (u_before_video ut hevc_vcl ns),
+        u_of_type ut 33 (u_before_video ut hevc_vcl ns),
+        u_of_type ut 34 (u_before_video ut hevc_vcl ns)) /\
+  (forall want stop, hevc_ExtractNalusOfTypeFromByteStream want (stream us) stop =
+     Ok (u_of_type ut want (if stop then u_before_video ut hevc_vcl ns else ns))).
+Proof. exact helpers_hevc_own_stream. Qed.
+Print Assumptions C14_helpers_hevc_units_stream.
+
+(* hypotheses are satisfiable: AUD(35) VPS(32) SPS(33) PPS(34) VPS(32, a duplicate) SEI(39) IDR_W_RADL(19) PPS(34);
+   the second header byte carries nuh_layer_id / temporal id and does not influence the type *)
+Example C14_helpers_hevc_units_ex :
+  let us := [(true, [70;1;80]); (true, [64;1;12;1]); (false, [66;1;1;96]); (false, [68;1;193]);
+             (true, [64;9;13]); (false, [78;1;5;128]); (true, [38;1;175;6]); (false, [68;1;200])]%N in
+  let ns := map snd us in
+  hevc_units ns = true /\ hevc_stream_units us = true /\
+  u_types hevc_unit_type ns = [35;32;33;34;32;39;19;34]%N /\
+  hevc_FindNaluTypesUpToFirstVideoNalu (sample ns) = Ok [35;32;33;34;32;39;19]%N /\
+  hevc_IsRAPSample (sample ns) = Ok true /\ hevc_IsIDRSample (sample ns) = Ok true /\
+  hevc_HasParameterSets (sample ns) = Ok true /\
+  hevc_GetParameterSets (sample ns) = Ok ([[64;1;12;1]; [64;9;13]], [[66;1;1;96]], [[68;1;193]])%N /\
+  hevc_GetParameterSetsFromByteStream (stream us) = Ok ([[64;1;12;1]; [64;9;13]], [[66;1;1;96]], [[68;1;193]])%N /\
+  hevc_ExtractNalusOfTypeFromByteStream 34 (stream us) false = Ok [[68;1;193]; [68;1;200]]%N /\
+  hevc_ExtractNalusOfTypeFromByteStream 34 (stream us) true = Ok [[68;1;193]]%N.
 Proof. vm_compute. repeat split; reflexivity. Qed.
